@@ -483,11 +483,36 @@ class Seq(object):
     if self.stopped:
       return False
     self.stopped = True
+    # the connections that are up when the stop begins (one that is lost on the way ends that destination's part in the stop)
+    self.conn_at_stop = {}
+    for i in range(len(self.dests)):
+      c = self.connector(i)
+      if c is not None and c.state == 'connected' and c.transport is not None:
+        self.conn_at_stop[i] = c.transport
     try:
-      self.root.stopService()
+      d = self.root.stopService()
     except Exception as e:
       self.counters['stop_raised'] += 1
       self.stop_exc = e
+      return
+    if d is not None and hasattr(d, 'addBoth'):
+      d.addBoth(self._stop_complete)
+
+  def _stop_complete(self, result):
+    # The Deferred of stopService() is what twistd waits for before the reactor cuts every connection that is still open:
+    # when it fires, no destination that has been connected since the stop began may have anything left to transmit.
+    self.counters['stop_completions_observed'] = self.counters.get('stop_completions_observed', 0) + 1
+    for i, dest in enumerate(self.dests):
+      c = self.connector(i)
+      f = self.fmap.get(dest)
+      if c is None or f is None or c.state != 'connected' or c.transport is None or c.transport.disconnecting:
+        continue
+      if c.transport is not self.conn_at_stop.get(i):
+        continue
+      if len(f.queue) > 0:
+        self.viol('stop/complete-with-queue', 'the orderly stop reported completion while connected destination %s still had %d datapoints queued' % (
+          self._fname(dest), len(f.queue)))
+    return result
 
   # ---------------------------------------------------------------------------- oracles
   def written(self, d):
